@@ -144,6 +144,9 @@ def gen_jobs(tier, seed):
                                 "reqpos": 1, "kwn": ["k"], "kwt": [kt], "kwreq": [rng.random() < 0.7], "body": rng.choice(["leaf", "next"])})
             methods.append({"id": "m9", "prio": 0, "reg": 9, "pos": [cls(1)], "reqpos": 1, "kwn": ["k"], "kwt": [cls(1)], "kwreq": [False], "body": "leaf"})
             calls = [{"pos": [a], "kw": {"k": b}} for a in ("i1", "sa") for b in NAMES] + [{"pos": ["i1"], "kw": {}}]
+        if q % 2 == 1:
+            # the order in which argument classes are first seen must not matter
+            calls = list(reversed(calls))
         jobs.append({"id": f"C10-{q}", "methods": methods, "calls": calls})
     # the recorded rank shape (KF-pull-rank), always present: the dependent method is a candidate for (int, int) but its
     # condition fails; it still hides the (int, object) method from the comparison with (object, int)
